@@ -218,7 +218,13 @@ def main():
                 if case["mode"] == "pdict":
                     track = tl.schedule(world.dec({"d": case["events"][0]}), count=1)
                 else:
-                    track = tl.schedule(Seq([world.dec({"d": ev}) for ev in case["events"]]))
+                    if case.get("replay_period"):
+                        # the same dictionary objects are yielded again on every pass
+                        k = case["replay_period"]
+                        objs = [world.dec({"d": ev}) for ev in case["events"][:k]]
+                        track = tl.schedule(Seq(objs * (len(case["events"]) // k)))
+                    else:
+                        track = tl.schedule(Seq([world.dec({"d": ev}) for ev in case["events"]]))
                 if case.get("muted"):
                     track.mute()
                 for t in range(case["nticks"]):
